@@ -19,6 +19,7 @@ for n in names:
         outs = {k: (p.communicate()[0], p.returncode) for k, p in procs.items()}
     finally:
         subprocess.run(["git", "-C", REPO, "checkout", "--", "."])
+        subprocess.run(["git", "-C", REPO, "clean", "-fdq", "wheatley"])
     bad = [k for k, (o, rc) in outs.items() if rc != 0]
     print(f"{n}: {'quiet' if not bad else 'ALARM in ' + ' '.join(bad)}")
     for k in bad:
